@@ -1157,7 +1157,7 @@ package runtime
 //@   assert_before_call sendResumeValues: old(t.status) == ThreadSuspended && old(caller.status) == ThreadOK && $t == t && t.status == ThreadOK && t.caller == caller && caller.status == ThreadOK && $err == nil && $exception == nil
 
 //@ func (*Thread).Close
-//@   prop C09
+//@   prop C09 C04
 //@   arith int
 //@   norte
 //@   requires t != nil && caller != nil && t != caller
@@ -1189,3 +1189,40 @@ package runtime
 //@   assert_before_call sendResumeValues: old(t.status) == ThreadOK && $t == old(t.caller) && $exception == exception
 //@   assert_before_call ReleaseBytes: ghost(wake) == 0   // the thread does not touch the runtime's accounting after handing control back
 //@   ensures ghost(wake) == 1
+
+// ---------------------------------------------------------------------------
+// C04: argument slots of a Go continuation
+// ---------------------------------------------------------------------------
+// GoCont.Arg(n) reads c.args[n] unchecked.  The slots are allocated once with
+// the registered arity; pushing never advances nArgs past them and never
+// changes the slots slice, so a test on NArgs() implies the slot exists (used
+// by the arity obligations of the effect checker) and every index below the
+// arity is valid.
+//@ macro slotsOK(c) = c != nil && 0 <= c.nArgs && c.nArgs <= len(c.args)
+
+//@ func (*GoCont).Push
+//@   prop C04
+//@   arith int
+//@   requires slotsOK(c) && r != nil
+//@   modifies everything()
+//@   exits any
+//@   ensures slotsOK(c) && len(c.args) == old(len(c.args)) && c.nArgs >= old(c.nArgs)
+
+//@ func (*GoCont).PushEtc
+//@   prop C04
+//@   arith int
+//@   requires slotsOK(c) && r != nil
+//@   modifies everything()
+//@   exits any
+//@   ensures slotsOK(c) && len(c.args) == old(len(c.args)) && c.nArgs >= old(c.nArgs)
+//@   loop 1: invariant -1 <= rangeindex && rangeindex < len(etc) && slotsOK(c) && c.nArgs < len(c.args) && len(c.args) == old(len(c.args)) && c.nArgs >= old(c.nArgs)
+
+//@ func NewGoCont
+//@   prop C04
+//@   arith int
+//@   norte
+//@   nocover
+//@   requires t != nil && t.Runtime != nil && f != nil && 0 <= f.nArgs && f.nArgs < 1000000 && valuePoolOK(t.argsPool) && goContPoolOK(t.goContPool)
+//@   modifies everything()
+//@   exits any
+//@   ensures slotsOK(result0) && result0.nArgs == 0 && len(result0.args) == old(f.nArgs) && result0.GoFunction == f
